@@ -45,28 +45,31 @@ From SV Require Import Tables ArgCheck ArgSpec Machine Printer CompleteFacts Com
 
 (* the model's tag -> extension map for action arguments IS the dict of check_if_arg_is_extension read from factory.py on this run (tools/gen_factory.py) *)
 Theorem C06_tag_extension_map :
-  forall (v : fv) (reqs : list bytes),
-  arg_extension v reqs =
-  match v with
-  | FS s => match assoc_get s gen_arg_exts with
-            | Some e => require e reqs
-            | None => reqs
-            end
-  | _ => reqs
-  end.
+  guarded gen_arg_exts
+    (fun m : list (bytes * bytes) =>
+     forall (v : fv) (reqs : list bytes),
+     arg_extension v reqs =
+     match v with
+     | FS s => match assoc_get s m with
+               | Some e => require e reqs
+               | None => reqs
+               end
+     | _ => reqs
+     end).
 Proof. exact ConstFacts.arg_extension_is_the_map. Qed.
 Print Assumptions C06_tag_extension_map.
 
 (* the header fallback is taken exactly for names outside the condition keywords read from __create_filter on this run *)
 Theorem C06_dispatch_keywords :
-  forall s : bytes,
-  snd (cond_kind (FS s)) = KHeader <-> mem (effective_name s) gen_dispatch = false.
+  guarded gen_dispatch
+    (fun l : list bytes =>
+     forall s : bytes, snd (cond_kind (FS s)) = KHeader <-> mem (effective_name s) l = false).
 Proof. exact ConstFacts.dispatch_is_the_keywords. Qed.
 Print Assumptions C06_dispatch_keywords.
 
 (* what a leading `not` negates is the tuple read from the source *)
 Theorem C06_negatable_names :
-  forall s : bytes, negatable s = mem s gen_negatable.
+  guarded gen_negatable (fun l : list bytes => forall s : bytes, negatable s = mem s l).
 Proof. exact ConstFacts.negatable_is_the_tuple. Qed.
 Print Assumptions C06_negatable_names.
 
